@@ -59,6 +59,99 @@ PROPS = {
     },
 }
 
+PROPS.update({
+    "C03": {
+        "engine": "c03",
+        "level": "exploration",
+        "profiles": ["release", "checked"],
+        "budget": {"quick": 12, "thorough": 200},
+        "claim": "The crate's decoders are run on streams produced by an independent structure-aware generator that chooses every syntactic alternative of the RFC 9639 frame grammar independently (each-choice coverage in the systematic part: every block-size/sample-rate/bit-depth coding, LPC order 1-32 x precision {1,7,15} x shift {0,15}, every Rice/Rice2 parameter, every escape width, wasted bits on each channel role, 33-bit side channels, 1-7 byte coded numbers, variable block size) and derives residuals from target PCM, so each stream is valid by construction and confirmed by the reference validator. All 8 reader front-ends (also over 1-byte-read sources) must return exactly the target PCM and verify_reader must report the MD5 status the generator arranged. Held = no divergence on the streams observed.",
+        "note": "generator and reference validator (flacref) are the trusted base; a generator/validator disagreement is reported as inconclusive, never as a violation; constructs on which the RFC is debatable (empty first partition) are not generated",
+        "technique": "runtime monitoring: grammar-based valid-stream generator + reference model as oracle for the decoder, release + overflow-checked builds",
+        "design_ref": "DESIGN.md section 4 C03, section 6",
+        "rule": "a case = one generated stream (params, PCM, per-frame plan); systematic each-choice list (~600 streams) then seeded random plans; NON-TRIVIAL when the stream contains >= 1 FIXED/LPC subframe; DISTINCT by hash of the stream bytes",
+        "quotas": {
+            "LPC orders 1..32 all decoded": lambda m: all(f"lpc{o}" in m["hist"].get("subframe", {}) for o in range(1, 33)),
+            "all 15 block-size codes decoded": lambda m: keys(m, "bs_code") == 15,
+            "all 15 sample-rate codes decoded": lambda m: keys(m, "rate_code") == 15,
+            "all 7 bit-depth codes decoded": lambda m: keys(m, "bps_code") == 7,
+            "Rice parameters 0..14 and Rice2 0..30 decoded": lambda m: keys(m, "rice_param") == 15 and keys(m, "rice2_param") == 31,
+            "escape widths 0..31 decoded": lambda m: keys(m, "escape_width") == 32,
+            "coded numbers of 1..7 bytes decoded": lambda m: keys(m, "number_bytes") == 7,
+            "all 11 channel assignments decoded": lambda m: keys(m, "ch_code") == 11,
+            "all three verify outcomes exercised": lambda m: keys(m, "verify") == 3,
+        },
+        "assumptions": ["flacref::sgen emits only valid streams (each is re-validated by flacref::dec before use)"],
+    },
+    "C04": {
+        "engine": "c04",
+        "level": "exploration",
+        "profiles": {"quick": ["release", "checked"], "thorough": ["release", "checked", "asan"]},
+        "budget": {"quick": 14, "thorough": 200},
+        "claim": "Every decoding / frame-parsing entry point (3 file readers plain + seekable with seeks, raw stream reader, verify_reader, read_blocks, FrameIterator + Subframe::decode, generate_seektable, Frame/FrameHeader::read[_subset] at every sync-looking offset) is driven over hostile inputs while a panic monitor, a per-case CPU-time budget (20 s + 1 ms/byte, thread CPU time, enforced by an in-process watchdog), an allocation monitor (peak <= 48 MiB + 64 n, counting global allocator) and an output-volume bound watch it, in the release profile and with overflow checks + debug assertions (thorough adds an AddressSanitizer build). Inputs: generator malform knobs with valid CRCs (each-choice), CRC-repaired mutations of valid frames, STREAMINFO/SEEKTABLE that lie about valid frames, random and sync-rich bytes, spliced streams, mutated crate output, truncated fixtures. Held = no monitor fired on the executions observed.",
+        "note": "the monitors see only paths the workload reaches; 'never hangs' is restated as the CPU budget; allocation bound constants are fixed in DESIGN.md",
+        "technique": "runtime monitoring + sanitizers: panic/CPU/allocation/output monitors over structure-aware malformed inputs; overflow-checked and ASan builds",
+        "design_ref": "DESIGN.md section 4 C04, section 3.2",
+        "rule": "a case = one byte string driven through all 13 entry-point groups; classes: malform-knob, crc-repaired-mutation, lying-metadata, encoded-mutated, splice, sync-rich, random, fixture(-truncated); NON-TRIVIAL = every class except raw random bytes (they carry structure that reaches the parsers); DISTINCT by hash of the bytes",
+        "quotas": {
+            ">= 20 distinct error variants returned": lambda m: keys(m, "error_variant") >= 20,
+            "all input classes exercised": lambda m: keys(m, "input_class") >= 7,
+            "all 13 entry-point groups driven": lambda m: keys(m, "entry_point") >= 13,
+            ">= 1000 evaluations": lambda m: m["evaluations"] >= 1000,
+        },
+        "assumptions": ["harness allocations are excluded by discarding decoded samples while the allocation monitor is active"],
+    },
+    "C05": {
+        "engine": "c05",
+        "level": "fault_enumeration",
+        "profiles": ["release", "checked"],
+        "budget": {"quick": 10, "thorough": 60},
+        "claim": "For every file of a corpus of small valid files (crate-encoded and generator-made; quick 256, thorough 4096 files) EVERY single-bit flip of every audio-frame byte and EVERY truncation length is applied and the altered file is decoded through three reader front-ends + verify_reader. Oracle: the samples delivered before the error are exactly the original PCM of k whole frames (frame table from the reference decoder); if no error was reported, the reference validator (only rules that hold under every reading of the RFC) must accept the altered bytes as a stream decoding to the same output, otherwise it is a silent acceptance; verify_reader may say MD5Match only if the PCM hashes to the stored digest. Plus ~25 must-reject classes generated with valid checksums in first/middle/last frame. Exhaustive per corpus file; the corpus itself is a sample.",
+        "note": "fault space per file is enumerated completely; which faults are 'another valid stream' is decided by flacref::dec (Rules::LENIENT)",
+        "technique": "fault enumeration (all bit flips x all truncations per file) with prefix-of-whole-frames oracle and independent validity adjudication",
+        "design_ref": "DESIGN.md section 4 C05, section 6 list R",
+        "rule": "evaluations = altered files judged (each through 3 readers + verify); DISTINCT NON-TRIVIAL = corpus files whose unaltered form decodes correctly plus must-reject files adjudicated invalid, by hash of bytes",
+        "quotas": {
+            ">= 100000 faults judged": lambda m: m["evaluations"] >= 100000,
+            "bit flips and truncations both observed ending in errors": lambda m: h(m, "outcome", "bitflip:error") > 0 and h(m, "outcome", "truncation:error") > 0,
+            ">= 20 must-reject classes": lambda m: keys(m, "must_reject_class") >= 20,
+        },
+        "assumptions": ["single-bit flips are confined to the audio frames as the property states; metadata flips are covered by C12"],
+    },
+    "C06": {
+        "engine": "c06",
+        "level": "exploration",
+        "profiles": ["release", "checked"],
+        "budget": {"quick": 12, "thorough": 150},
+        "claim": "Random operation histories (read / fill_buf / consume / seek with targets at 0, frame boundaries +-1, mid-frame, last, end, end+1, far beyond; byte reader also Current(+-d), End(-d), End(+d) and positions inside a PCM frame, with a Current(0) position probe after every seek) are executed on all four seekable reader front-ends against a sequential model (decoded PCM array + cursor). Files: crate-encoded with every seek-table policy and generator-made with none/empty/sparse/per-frame/placeholder-only seek tables, fixed and variable block size, 1-8 channels, 1-32 bits, total known/unknown; content is position-coded so a misplaced read names where it came from. Seeks beyond the end must fail; after a failed seek nothing is judged until the next absolute seek; readers opened with new() must refuse to seek.",
+        "note": "model = reference decoder's PCM; position after a failed seek is treated as unspecified",
+        "technique": "runtime monitoring: sequential call histories checked online against an executable reference model",
+        "design_ref": "DESIGN.md section 4 C06",
+        "rule": "a case = (file, reader front-end, operation history of 5-60 ops); NON-TRIVIAL when the history contains a successful seek followed by a non-empty read that was compared with the model; DISTINCT by hash(file bytes, reader, history)",
+        "quotas": {
+            ">= 5000 successful seeks followed by verified data": lambda m: h(m, "successful_seek_then_data") >= 5000,
+            "failed (beyond-end) seeks observed": lambda m: h(m, "failed_seeks") >= 500,
+            "all four readers, seekable and not": lambda m: keys(m, "reader") == 8,
+        },
+    },
+    "C07": {
+        "engine": "c07",
+        "level": "exploration",
+        "profiles": ["release", "checked"],
+        "budget": {"quick": 10, "thorough": 150},
+        "claim": "Random consumption histories (read(n), fill_buf, partial consume(k), then a terminal drain via read_to_end / iterator / read loop) with sizes from {1,2,3,channels,channels+1,7,64,255,4096,100000} run on all four reader front-ends over sources that fragment their reads (whole, 1-byte, random chunk plans, and for small files every two-chunk split point). Conservation oracle: the concatenation of everything returned equals the reference PCM exactly once (checked incrementally against the model cursor), the byte readers equal the PCM serialised at ceil(bps/8) bytes in the selected order, the channel reader equals the de-interleaved PCM, and after end-of-stream five further polls all signal end-of-stream.",
+        "note": "model = reference decoder's PCM and the harness's own byte serialisation",
+        "technique": "runtime monitoring: exactly-once / in-order conservation monitor over call histories and source segmentations",
+        "design_ref": "DESIGN.md section 4 C07",
+        "rule": "a case = (file, reader front-end, source segmentation, history); NON-TRIVIAL when >= 1 item was delivered and compared; DISTINCT by hash(file, reader, source, history)",
+        "quotas": {
+            "all three source kinds": lambda m: keys(m, "source") == 3,
+            "every reader reached end of stream": lambda m: keys(m, "reached_eos") == 4,
+            ">= 1e6 items compared": lambda m: h(m, "items_checked") >= 1000000,
+        },
+    },
+})
+
 
 # properties not (yet) claimed: id -> reason
 NOT_APPLICABLE = {f"C{n:02d}": "check not built yet (framework under construction; see DESIGN.md section 4 for the planned monitor)" for n in range(1, 21)}
